@@ -3,6 +3,13 @@
   Block: consensus encoding (src/block.rs, src/dynafed.rs), block hash preimage,
   dynafed parameter roots (two-level fast-merkle commitment), sizes.
   Hash functions are parameters (`Hashes`).
+
+  Rust items transcribed here (read by tools/modelled_items.py): `impl Encodable for Params`,
+  `impl Decodable for Params`, `Params::calculate_root`, `Params::into_compact`, `Params::is_null`,
+  `FullParams::calculate_root`, `FullParams::into_compact`, `FullParams::extra_root`,
+  `impl Encodable for ExtData`, `impl Encodable for BlockHeader`, `impl Decodable for BlockHeader`,
+  `BlockHeader::block_hash`, `BlockHeader::calculate_dynafed_params_root`, `BlockHeader::is_dynafed`,
+  `Block::block_hash`, `Block::size`, `Block::weight`.
 -/
 import EV.Model.Transaction
 import EV.Model.FastMerkle
